@@ -654,7 +654,7 @@ func (c08Prop) Check(c Case) Outcome {
 }
 
 func init() {
-	Register(c19Prop{gen: &diffProp{id: "C01", focus: "", depth: 4}})
+	Register(c19Prop{gen: &diffProp{id: "C01", focus: "", depth: 4, extreme: true}})
 	Register(c20Prop{})
 	Register(c08Prop{})
 }
